@@ -544,3 +544,51 @@ Proof.
   - injection H as <-. cbn. split; [lia|assumption].
   - destruct (find_byte c s) as [j|]; [|discriminate]. injection H as <-. destruct (IH j eq_refl). cbn [length]. split; [lia|assumption].
 Qed.
+
+(* ---- malloc / free / memset (the heap builtins of CLite.v): the fresh block is appended, a freed block is emptied *)
+Lemma malloc_ok (m : mem) n : 0 <= n ->
+  do_builtin_m BMalloc [VInt n] m = Ok (VPtr (length m) 0, m ++ [repeat VUndef (Z.to_nat n)]).
+Proof. intro H. cbn [do_builtin_m]. destruct (Z.ltb_spec n 0); [lia|reflexivity]. Qed.
+Lemma nth_error_app_new {A} (m : list A) x : nth_error (m ++ [x]) (length m) = Some x.
+Proof. rewrite nth_error_app2 by lia. rewrite Nat.sub_diag. reflexivity. Qed.
+Lemma nth_error_app_old {A} (m : list A) x b : (b < length m)%nat -> nth_error (m ++ [x]) b = nth_error m b.
+Proof. intro H. apply nth_error_app1. exact H. Qed.
+Lemma upd_app_old {A} (m : list A) x b y : (b < length m)%nat -> upd (m ++ [x]) b y = upd m b y ++ [x].
+Proof.
+  intro H. unfold upd. rewrite firstn_app, skipn_app. replace (b - length m)%nat with 0%nat by lia.
+  replace (S b - length m)%nat with 0%nat by lia. cbn [firstn skipn]. rewrite app_nil_r, <- app_assoc. reflexivity.
+Qed.
+Lemma upd_app_new {A} (m : list A) x y : upd (m ++ [x]) (length m) y = m ++ [y].
+Proof.
+  unfold upd. rewrite firstn_app, Nat.sub_diag, firstn_all. cbn [firstn]. rewrite app_nil_r. f_equal.
+  rewrite skipn_app, skipn_all2 by lia. replace (S (length m) - length m)%nat with 1%nat by lia. reflexivity.
+Qed.
+Lemma free_ok (m : mem) b (blk : block) : nth_error m b = Some blk -> blk <> [] ->
+  do_builtin_m BFree [VPtr b 0] m = Ok (VUndef, upd m b []).
+Proof.
+  intros Hm Hne. cbn [do_builtin_m]. rewrite Hm. destruct blk as [|v blk]; [congruence|].
+  rewrite set_nth_upd by (apply nth_error_Some; congruence). reflexivity.
+Qed.
+Lemma free_null (m : mem) : do_builtin_m BFree [VInt 0] m = Ok (VUndef, m).
+Proof. reflexivity. Qed.
+(* freeing twice, or freeing a block that was never allocated, is an error of the semantics *)
+Lemma free_freed (m : mem) b : nth_error m b = Some [] -> do_builtin_m BFree [VPtr b 0] m = Err EOob.
+Proof. intro Hm. cbn [do_builtin_m]. rewrite Hm. reflexivity. Qed.
+Lemma load_freed (m : mem) b o : nth_error m b = Some [] -> load m b o = Err EOob.
+Proof. intro Hm. unfold load. rewrite Hm. destruct (o <? 0); [reflexivity|]. destruct (Z.to_nat o); reflexivity. Qed.
+Lemma memset_ok (m : mem) bd od c n (dblk : block) : nth_error m bd = Some dblk -> 0 <= n -> 0 <= od ->
+  od + n <= Z.of_nat (length dblk) ->
+  do_builtin_m BMemset [VPtr bd od; VInt c; VInt n] m
+  = Ok (VPtr bd od, upd m bd (put_cells dblk (Z.to_nat od) (repeat (VInt (wrap U8 c)) (Z.to_nat n)))).
+Proof.
+  intros Hd Hn Hod Hl. cbn [do_builtin_m]. destruct (Z.ltb_spec n 0); [lia|].
+  rewrite (write_cells_ok m bd dblk); [reflexivity|exact Hd|exact Hod|]. rewrite repeat_length. lia.
+Qed.
+Lemma put_cells_0 {A} (l vs : list A) : put_cells l 0 vs = vs ++ skipn (length vs) l.
+Proof. reflexivity. Qed.
+Lemma put_cells_app {A} (pre rest vs : list A) : (length vs <= length rest)%nat ->
+  put_cells (pre ++ rest) (length pre) vs = (pre ++ vs) ++ skipn (length vs) rest.
+Proof.
+  intro H. unfold put_cells. rewrite firstn_app, Nat.sub_diag, firstn_all. cbn [firstn]. rewrite app_nil_r, <- app_assoc.
+  f_equal. f_equal. rewrite skipn_app, skipn_all2 by lia. replace (length pre + length vs - length pre)%nat with (length vs) by lia. reflexivity.
+Qed.
